@@ -137,7 +137,7 @@ dec_process_msg (m_msg_t m)
      *    be in error.
      */
     if (m_msg_send (m, MUNGE_MSG_DEC_RSP, 0) != EMUNGE_SUCCESS) {
-        if (rc == 0) {
+        if ((rc == 0) && c->is_replay_new) {
             replay_remove (c);
         }
         rc = -1;
@@ -1017,6 +1017,7 @@ dec_validate_replay (munge_cred_t c)
     rc = replay_insert (c);
 
     if (rc == 0) {
+        c->is_replay_new = 1;
         return (0);
     }
     if (rc > 0) {
